@@ -164,6 +164,25 @@ def call(I, name, args, e):
              'core::array::<impl core::ops::Index<I> for [T; N]>::index', 'core::array::<impl core::ops::IndexMut<I> for [T; N]>::index_mut',
              'core::str::traits::<impl core::ops::Index<I> for str>::index'):
         s = a0; idx = args[1]
+        if isinstance(s, SliceV) and isinstance(s.seq, SeqV) and is_term(s.lo):
+            # indexing a sub-slice is indexing the sequence at the shifted position (bounds are those of the sub-slice)
+            sl_hi = s.hi if s.hi is not None else seqlen(s.seq.segs)
+            sl_len = sub(sl_hi, s.lo)
+            if isinstance(idx, RangeV) and is_term(idx.lo) and (idx.hi is None or is_term(idx.hi)):
+                hi = idx.hi if idx.hi is not None else sl_len
+                c_ = b_and(cmp('le', idx.lo, hi), cmp('le', hi, sl_len))
+                if c_ == FALSE:
+                    I.st.dead = True; return UNIT
+                if c_ != TRUE:
+                    I.guards.append({'cond': c_, 'sp': e.get('sp'), 'kind': 'slice-bounds'})
+                    I.st.facts.append((c_, None)); sym.refine(c_, I.st.ranges)
+                return RefV(Cell(SliceV(s.seq, add(s.lo, idx.lo), add(s.lo, hi))))
+            if is_term(idx):
+                c_ = cmp('lt', idx, sl_len)
+                if c_ == FALSE:
+                    I.st.dead = True; return UNIT
+                if c_ != TRUE: I.guards.append({'cond': c_, 'sp': e.get('sp'), 'kind': 'slice-bounds'})
+                return RefV(IndexPlace(I, s.seq, add(s.lo, idx)))
         if isinstance(s, SeqV):
             if isinstance(idx, RangeV):
                 total_ = seqlen(s.segs)
